@@ -32,7 +32,14 @@ ASSUMPTIONS = ["math/rand: Intn/Int31n/Perm transcribed in Model/Rand.v; the rec
 LEVEL_TEXT = ("theorems in coq/Properties/C03.v: wf is preserved by every operation of Model/History.v, hence by every history "
               "(C03_history); enumerations agree and the Newick text round-trips after any history; correspondence by exact "
               "structural equality with the Go tree after every step of every history")
-LEVEL_NOTE = ""
+LEVEL_NOTE = ("one defect found by the history check is fixed in /repo (a7e3451: RerootOutGroup dereferenced nil on a two-tip tree, "
+              "reached after a successful prune / subtree); the model follows the fixed code (refusal below three tips).  "
+              "Theorem side conditions (explicit in C03_history): root with >= 2 neighbours for outgroup / midpoint / prune / "
+              "insert, no single-child inner node for prune (the property's proviso), distinct tip names for prune and "
+              "outgroup-with-removal (implied by a successful ReinitIndexes), well-formed argument trees for graft / merge; "
+              "none for the other 13 operations.  Outside Model/Outgroup.v's domain (root with one neighbour, two-tip tree for "
+              "midpoint) and for CollapseTopoDepth on a tree whose root is a tip the step is judged by the oracle alone "
+              "(tag :unmodelled) and the history continues from the dumped tree")
 
 # One defect found by this check is fixed in /repo (a7e3451 RerootOutGroup dereferenced nil on a two-tip tree): no open
 # finding, no matcher.
